@@ -118,15 +118,17 @@ Section Union.
   Lemma union_wf : uf_wf u'.
   Proof. apply uf_wf_upd; auto; lia. Qed.
 
+  Lemma union_parent x : parent u' x = if Nat.eqb x mx then mn else parent u x.
+  Proof. unfold u'. now apply parent_upd. Qed.
+
   Lemma union_find w : find u' w = if Nat.eqb (find u w) mx then mn else find u w.
   Proof.
     induction w as [w IH] using lt_wf_ind.
-    rewrite (find_step u' w union_wf), (find_step u w WF).
-    unfold u' at 1 2. rewrite parent_upd by auto.
+    rewrite (find_step u' w union_wf), (find_step u w WF), union_parent.
     destruct (Nat.eqb_spec w mx) as [->|Nw].
     - rewrite Rmx, Nat.eqb_refl, Nat.eqb_refl.
       destruct (Nat.eqb_spec mn mx) as [E|_]; [lia|].
-      apply find_root_id; [apply union_wf|]. unfold u'. rewrite parent_upd by auto.
+      apply find_root_id; [apply union_wf|]. rewrite union_parent.
       destruct (Nat.eqb_spec mn mx); [lia|exact Rmn].
     - destruct (Nat.eqb_spec (parent u w) w) as [E|N].
       + destruct (Nat.eqb_spec w mx); [contradiction|reflexivity].
@@ -212,7 +214,7 @@ Proof.
   - rewrite (find_root_id u r WF Rr), Nat.eqb_refl.
     rewrite class_count_zero; [reflexivity|]. intros w Hw. apply H; lia.
   - destruct (Nat.eqb_spec (find u n) r) as [E|_]; [exfalso; apply (H n); auto|].
-    apply IH; auto; [lia|]. intros w Hw; apply H; lia.
+    apply IH; auto; try lia.
 Qed.
 
 (* ---------------- path compression is invisible ---------------- *)
@@ -222,19 +224,16 @@ Proof.
   intros WF Hw u1.
   assert (WF1 : uf_wf u1) by (apply uf_wf_upd; auto; now apply find_le).
   split; [exact WF1|].
+  assert (HP : forall y, parent u1 y = if Nat.eqb y w then find u w else parent u y)
+    by (intros y; unfold u1; now apply parent_upd).
   induction x as [x IH] using lt_wf_ind.
-  rewrite (find_step u1 x WF1), (find_step u x WF). unfold u1 at 1 2. rewrite parent_upd by auto.
+  rewrite (find_step u1 x WF1), HP.
   destruct (Nat.eqb_spec x w) as [->|Nx].
-  - destruct (Nat.eqb_spec (find u w) w) as [E|N].
-    + rewrite (find_step u w WF) in E.
-      destruct (Nat.eqb_spec (parent u w) w) as [E'|N']; [reflexivity|].
-      pose proof (parent_le u w WF). pose proof (find_le u (parent u w) WF). lia.
-    + pose proof (find_le u w WF). rewrite IH by lia. rewrite find_idem by auto.
-      rewrite (find_step u w WF) at 1.
-      destruct (Nat.eqb_spec (parent u w) w) as [E'|N']; [|reflexivity].
-      exfalso; apply N. now apply find_root_id.
-  - destruct (Nat.eqb_spec (parent u x) x) as [E|N]; [reflexivity|].
-    pose proof (parent_le u x WF). apply IH; lia.
+  - destruct (Nat.eqb_spec (find u w) w) as [E|N]; [now rewrite E|].
+    pose proof (find_le u w WF). rewrite IH by lia. now apply find_idem.
+  - destruct (Nat.eqb_spec (parent u x) x) as [E|N].
+    + symmetry; now apply find_root_id.
+    + pose proof (parent_le u x WF). rewrite IH by lia. now apply find_parent.
 Qed.
 
 Lemma compress_fuel_ok u fuel w root : uf_wf u -> root = find u w ->
